@@ -227,6 +227,7 @@ def bfs(pair, depth, col):
     # node: (impl contents, model stored (frozenset of items), memo_happened)
     start = (frozenset(), frozenset(), False)
     frontier = {start: ()}
+    raw_hist = {start: ()}      # node -> the operations (with key objects) that lead to it
     seen = {start}
     for d in range(depth):
         nxt = {}
@@ -239,7 +240,11 @@ def bfs(pair, depth, col):
                     if op == "in" and k not in stored:
                         continue
                     tl.inspection.unwrap.cache_clear() if (d == 0 and op == "insert") else None
-                    ctx = rebuild(state)
+                    # the context is the one this very history produced - not a fresh one given the same entries: whatever an
+                    # implementation keeps besides its entries is part of the state
+                    ctx = tl.typelib.ctx.TypeContext()
+                    for op_, k_ in raw_hist.get((state, stored_f, memo), ()):
+                        apply(ctx, op_, k_)
                     got = apply(ctx, op, k)
                     exp = expected(stored, op, k)
                     col.ev()
@@ -265,6 +270,7 @@ def bfs(pair, depth, col):
                     if node not in seen:
                         seen.add(node)
                         nxt[node] = tuple(ops)
+                        raw_hist[node] = (*raw_hist.get((state, stored_f, memo), ()), (op, k))
         frontier = nxt
         col.label("bfs-states", len(nxt))
     col.exhaustive_done = True
